@@ -2,7 +2,7 @@
    Each is closed by `exact <lemma>` and followed by Print Assumptions (audited by ./check on every run). *)
 From V.lib Require Import Base.
 From V.c01 Require Import C01Codec C01Model C01LeafProofs C01Leaf2Proofs C01Leaf3Proofs C01Leaf4Proofs C01TableProofs C01TreeProofs C01WhyProofs C01Witness C01Witness3
-  C01RealFiles C01RealWitness.
+  C01RealFiles C01RealWitness C01SizeProofs C01LocalProofs C01StableProofs C01FixProofs C01Witness4.
 
 (* a compact header written by EncodeHeaderSW is read back by DecodeHeaderSR *)
 Theorem C01_header_rt : forall name sz r, lenN name = 4 -> 8 <= sz < 4294967296 ->
@@ -165,23 +165,60 @@ Theorem C01_explained : forall bs t rest, bytes_ok bs = true -> decode bs = Ok (
 Proof. exact explained. Qed.
 Print Assumptions C01_explained.
 
-(* C01_fixpoint, full statement (NOT proved; explored on the implementation by the search):
-     decode bs = Ok (t, []) -> exact_box t = true ->
-     exists enc t', raw_box false t = Ok enc /\ decode enc = Ok (t', []) /\ t' = t up to the captured bytes /\
-                    raw_box false t' = Ok enc.
-   Proved: the case in which the captured reserved bytes of the input already have the encoder's values
-   (why_box t = []; then enc = bs and t' = t).  Missing: the decoders' independence of the reserved bytes
-   (one print-then-parse lemma per leaf kind). *)
+(* ---------------------------------------------------------------- the fixed point, in general *)
+(* the decoders are local: a successful run reads a prefix of the slice and never looks at what follows it *)
+Theorem C01_header_local : local dec_hdr.
+Proof. exact local_hdr. Qed.
+Print Assumptions C01_header_local.
+
+(* print-then-parse, per leaf kind (every entry of the dispatch tables): a decoded leaf whose header is the one the
+   encoder writes (hdr_fits) is re-encoded by the Go encoder (reserved places filled with dflt_rsv) into exactly
+   Size() bytes, and the decoder applied to those bytes -- whatever follows them -- returns the same leaf, now with
+   the encoder's values as captured bytes *)
+Theorem C01_leaf_stable : Forall (fun e => leaf_stable (snd e)) leaf_table.
+Proof. exact leaf_table_stable. Qed.
+Print Assumptions C01_leaf_stable.
+Theorem C01_pre_stable : Forall (fun e => pre_stable (fst (snd e))) pre_table.
+Proof. exact pre_table_stable. Qed.
+Print Assumptions C01_pre_stable.
+
+(* C01_fixpoint: for EVERY slice the model of DecodeBoxSR accepts completely with an exact tree t -- no hypothesis on
+   the reserved bytes --, the Go encoders succeed with some enc of the input's length (= Size()); decoding enc
+   succeeds and yields norm_box t, i.e. t up to the captured reserved bytes (their erasures are equal); encoding that
+   once more gives enc again.  enc differs from the input at most in the captured bytes (C01_tree). *)
+Theorem C01_fixpoint : forall bs t, bytes_ok bs = true -> decode bs = Ok (t, []) -> exact_box t = true ->
+  exists enc, raw_box false t = Ok enc /\ lenN enc = lenN bs /\ lenN enc = size_box t /\
+    decode enc = Ok (norm_box t, []) /\ erase_rsv (norm_box t) = erase_rsv t /\ raw_box false (norm_box t) = Ok enc.
+Proof. exact fixpoint. Qed.
+Print Assumptions C01_fixpoint.
+
+(* the same for a file in box-tree mode: File.Encode's bytes decode to the normalised boxes and encode to themselves *)
+Theorem C01_file_boxtree : forall bs ts, bytes_ok bs = true -> decode_file bs = Ok ts -> forallb exact_box ts = true ->
+  exists enc, encode_seq false ts = Ok enc /\ lenN enc = lenN bs /\ decode_file enc = Ok (map norm_box ts) /\
+    encode_seq false (map norm_box ts) = Ok enc.
+Proof. exact file_fixpoint. Qed.
+Print Assumptions C01_file_boxtree.
+
+(* the special case proved first (inputs whose reserved bytes already have the encoder's values: enc = input) *)
 Theorem C01_fixpoint_partial : forall bs t, bytes_ok bs = true -> decode bs = Ok (t, []) -> why_box t = [] ->
   exists enc, raw_box false t = Ok enc /\ decode enc = Ok (t, []) /\ raw_box false t = Ok enc /\ enc = bs.
 Proof. exact fixpoint_partial. Qed.
 Print Assumptions C01_fixpoint_partial.
 
-(* the same for a file in box-tree mode (same restriction) *)
 Theorem C01_file_boxtree_partial : forall bs ts, bytes_ok bs = true -> decode_file bs = Ok ts ->
   flat_map why_box ts = [] -> encode_seq false ts = Ok bs /\ decode_file bs = Ok ts.
 Proof. exact seq_explained. Qed.
 Print Assumptions C01_file_boxtree_partial.
+
+(* the hypotheses of C01_fixpoint are satisfiable by an input that C01_fixpoint_partial does not cover: an
+   stsd{avc1{avcC colr}} whose reserved bytes / bits are not the encoder's; the encoders' bytes differ from it and
+   are a fixed point *)
+Example C01_ex_fixpoint : bytes_ok ex_fix_bytes = true /\ decode ex_fix_bytes = Ok (treeof ex_fix_bytes, []) /\
+  exact_box (treeof ex_fix_bytes) = true /\ why_box (treeof ex_fix_bytes) <> [] /\
+  raw_box false (treeof ex_fix_bytes) = Ok ex_fix_enc /\ ex_fix_enc <> ex_fix_bytes /\
+  decode ex_fix_enc = Ok (norm_box (treeof ex_fix_bytes), []) /\
+  raw_box false (norm_box (treeof ex_fix_bytes)) = Ok ex_fix_enc.
+Proof. exact ex_fix_ok. Qed.
 
 (* --- what the guards exclude is really lost (witnesses replayed on the Go code by the check) --- *)
 (* witnesses of the version >= 2 defect of mvhd / tkhd (decode on version==1, encode on Version==0, Size on
